@@ -37,6 +37,16 @@ fn c14_metadata_kind() {
     c14_metadata_kind_body(kani::any(), kani::any());
 }
 
+/// same with a non-empty zero-sized vector (len 5): the guard must not depend on len
+#[cfg(kani)]
+#[kani::proof]
+#[kani::should_panic]
+fn c14_from_owned_rejects_zst_vec5() {
+    let v: Vec<()> = vec![(); 5];
+    assert!(v.capacity() == usize::MAX && v.len() == 5);
+    let _c = Cow::<[()]>::from_owned(v);
+}
+
 // ------------------------------------------------------------------------------------------------ generic plumbing
 // A Sized Cowable double whose parts are arbitrary metadata and which counts what the generic `Cow` code asks of it.
 pub static mut F_OWNED_FROM: u32 = 0; // owned_from_parts calls  (consumes the parts)
@@ -248,18 +258,6 @@ fn c14_generic_release_once() {
 }
 
 // ------------------------------------------------------------------------------------------------ str (bounded)
-fn stab(t: u8) -> &'static str {
-    match t {
-        0 => "",
-        1 => "a",
-        2 => "ab",
-        3 => "\u{e9}",   // 2 bytes, non-ASCII
-        4 => "a\u{e9}",  // 3 bytes
-        _ => "abc",
-    }
-}
-pub const NSTR: u8 = 6;
-
 /// order-sensitive byte digest (cheap for the solver) used to compare `Hash` output with the model's
 pub struct Dig(u64, u64);
 impl Hasher for Dig {
@@ -274,6 +272,14 @@ impl Hasher for Dig {
         }
         self.1 += 1;
     }
+    fn write_u8(&mut self, i: u8) {
+        self.0 = self.0.rotate_left(7) ^ (i as u64);
+        self.1 += 1;
+    }
+    fn write_usize(&mut self, i: usize) {
+        self.0 = self.0.rotate_left(7) ^ (i as u64) ^ 0x5555;
+        self.1 += 1;
+    }
 }
 fn dig<T: Hash + ?Sized>(t: &T) -> u64 {
     let mut d = Dig(0, 0);
@@ -281,19 +287,26 @@ fn dig<T: Hash + ?Sized>(t: &T) -> u64 {
     d.finish()
 }
 
-fn mk_str(ctor: u8, m: &'static str, cap: usize, arc: &Arc<str>) -> Cow<'static, str> {
+fn mk_str(ctor: u8, m: &'static str, arc: &Arc<str>) -> Cow<'static, str> {
     match ctor {
         0 => Cow::from_borrowed(m),
         1 => Cow::const_str(m),
         2 => Cow::from(std::borrow::Cow::Borrowed(m)),
-        3 => {
-            // owned, capacity `cap` requested (may be 0, may be < len: String grows), incl. len < cap
-            let mut s = String::with_capacity(cap);
+        3 => Cow::from(String::from(m)), // From<String>, capacity == len (empty => capacity 0 => borrowed-kind empty)
+        4 => {
+            // len < capacity
+            let mut s = String::with_capacity(m.len() + 1);
             s.push_str(m);
             Cow::from_owned(s)
         }
-        4 => Cow::from(String::from(m)), // From<String>, capacity == len (empty => capacity 0 => borrowed-kind empty)
-        5 => Cow::from(std::borrow::Cow::Owned(String::from(m))),
+        5 => {
+            // grown buffer (capacity chosen by String's amortised growth)
+            let mut s = String::new();
+            s.push_str(m);
+            s.push('x');
+            s.pop();
+            Cow::from(std::borrow::Cow::Owned(s))
+        }
         6 => Cow::from_shared(arc.clone()),
         _ => Cow::from(arc.clone()), // From<Arc<T>>
     }
@@ -312,6 +325,12 @@ fn check_str(c: &Cow<'static, str>, m: &'static str) {
     assert!(c.cmp(&mc) == Ordering::Equal);
     assert!(c.partial_cmp(&mc) == Some(Ordering::Equal));
     assert!(dig(c) == dig(m), "Hash of the Cow is the Hash of its content");
+}
+
+/// the cheap read-back used between steps (the full set of observers is exercised by c14_str_read)
+fn check_light(c: &Cow<'static, str>, m: &'static str) {
+    let s: &str = &**c;
+    assert!(s.len() == m.len() && s.as_bytes() == m.as_bytes(), "content reads back exactly");
 }
 
 /// one step on (cur, other): 0 clone cur into other, 1 into_owned + wrap again, 2 drop cur, 3 swap
@@ -335,7 +354,7 @@ fn str_step(op: u8, cur: &mut Option<Cow<'static, str>>, other: &mut Option<Cow<
                         assert!(d.ptr == c.ptr && d.metadata == c.metadata);
                     }
                 }
-                check_str(&d, m);
+                check_light(&d, m);
                 *other = Some(d); // a previous clone (if any) is dropped here
             }
         }
@@ -371,78 +390,199 @@ fn str_step(op: u8, cur: &mut Option<Cow<'static, str>>, other: &mut Option<Cow<
         *cur = other.take();
     }
     if let Some(c) = &*cur {
-        check_str(c, m);
+        check_light(c, m);
     }
 }
 pub const NOPS: u8 = 4;
 
-fn str_ops(ctor: u8, t: u8, cap: usize, ops: [u8; 3], nops: usize) {
-    let m = stab(t);
+/// Runs ops[depth..nops] and then the final accounting.  The dispatch on the operation is OUTSIDE the step and the rest of
+/// the run is continued INSIDE each arm, so CBMC executes every operation sequence as its own straight-line path with
+/// concrete heap state (merging the heap states of different sequences exceeded 12 GB).
+fn str_run(depth: usize, nops: usize, ops: [u8; 3], mut cur: Option<Cow<'static, str>>, mut other: Option<Cow<'static, str>>, m: &'static str, arc: &Arc<str>) {
+    if depth >= nops {
+        if let Some(c) = &cur {
+            check_light(c, m);
+        }
+        if let Some(c) = &other {
+            check_light(c, m);
+        }
+        kani::cover!(nops == 0 || (cur.is_some() && other.is_some()));
+        kani::cover!(nops == 0 || cur.is_none());
+        drop(cur);
+        drop(other);
+        // every Cow is gone: all Arc references taken were given back, the Arc's content was never touched
+        assert!(Arc::strong_count(arc) == 1, "every Arc reference taken is given back exactly once");
+        assert!(arc.as_bytes() == m.as_bytes());
+        return;
+    }
+    match ops[depth] {
+        0 => {
+            str_step(0, &mut cur, &mut other, m, arc);
+            str_run(depth + 1, nops, ops, cur, other, m, arc)
+        }
+        1 => {
+            str_step(1, &mut cur, &mut other, m, arc);
+            str_run(depth + 1, nops, ops, cur, other, m, arc)
+        }
+        2 => {
+            str_step(2, &mut cur, &mut other, m, arc);
+            str_run(depth + 1, nops, ops, cur, other, m, arc)
+        }
+        _ => {
+            str_step(3, &mut cur, &mut other, m, arc);
+            str_run(depth + 1, nops, ops, cur, other, m, arc)
+        }
+    }
+}
+
+/// `ctor` and `m` are literals at every call site
+fn str_ops(ctor: u8, m: &'static str, ops: [u8; 3], nops: usize) {
     let arc: Arc<str> = Arc::from(m);
     assert!(Arc::strong_count(&arc) == 1);
-    {
-        let c = mk_str(ctor, m, cap, &arc);
-        let shared0 = ctor >= 6;
-        assert!(is_shared(c.metadata.kind()) == shared0);
-        assert!(ctor > 2 || is_borrowed(c.metadata.kind()));
-        assert!(Arc::strong_count(&arc) == if shared0 { 2 } else { 1 });
-        check_str(&c, m);
-        let mut cur = Some(c);
-        let mut other: Option<Cow<'static, str>> = None;
-        if nops > 0 { str_step(ops[0], &mut cur, &mut other, m, &arc); }
-        if nops > 1 { str_step(ops[1], &mut cur, &mut other, m, &arc); }
-        if nops > 2 { str_step(ops[2], &mut cur, &mut other, m, &arc); }
-        if let Some(c) = &other {
-            check_str(c, m);
-        }
-        kani::cover!(cur.is_some() && other.is_some());
-        kani::cover!(cur.is_none());
+    let c = mk_str(ctor, m, &arc);
+    let shared0 = ctor >= 6;
+    assert!(is_shared(c.metadata.kind()) == shared0);
+    assert!(ctor > 2 || is_borrowed(c.metadata.kind()));
+    assert!(!(ctor == 4 || ctor == 5) || (is_owned(c.metadata.kind()) && c.metadata.capacity() > c.metadata.len()));
+    assert!(Arc::strong_count(&arc) == if shared0 { 2 } else { 1 });
+    check_str(&c, m);
+    str_run(0, nops, ops, Some(c), None, m, &arc);
+}
+// content: "" / "a" / "aé" (3 bytes, non-ASCII)
+fn str_content(ctor: u8, t: u8, ops: [u8; 3], nops: usize) {
+    match t {
+        0 => str_ops(ctor, "", ops, nops),
+        1 => str_ops(ctor, "a", ops, nops),
+        _ => str_ops(ctor, "a\u{e9}", ops, nops),
     }
-    // every Cow is gone: all Arc references taken were given back, the Arc's content was never touched
-    assert!(Arc::strong_count(&arc) == 1, "every Arc reference taken is given back exactly once");
-    assert!(arc.as_bytes() == m.as_bytes());
 }
-
 // construction class is fixed per harness (0 = borrowed ctors 0..2, 1 = owned ctors 3..5, 2 = shared ctors 6..7)
-fn str_class(class: u8, which: u8, t: u8, cap: usize, ops: [u8; 3], nops: usize) {
-    kani::assume(t < NSTR && cap <= 4 && ops[0] < NOPS && ops[1] < NOPS && ops[2] < NOPS);
+fn str_class(class: u8, which: u8, t: u8, ops: [u8; 3], nops: usize) {
+    kani::assume(t < 3 && ops[0] < NOPS && ops[1] < NOPS && ops[2] < NOPS);
     kani::assume(which < if class == 2 { 2 } else { 3 });
-    str_ops(class * 3 + which, t, cap, ops, nops);
+    match (class, which) {
+        (0, 0) => str_content(0, t, ops, nops),
+        (0, 1) => str_content(1, t, ops, nops),
+        (0, _) => str_content(2, t, ops, nops),
+        (1, 0) => str_content(3, t, ops, nops),
+        (1, 1) => str_content(4, t, ops, nops),
+        (1, _) => str_content(5, t, ops, nops),
+        (_, 0) => str_content(6, t, ops, nops),
+        (_, _) => str_content(7, t, ops, nops),
+    }
 }
 
-pub fn c14_str_borrowed_body(which: u8, t: u8, op1: u8, op2: u8, op3: u8) {
-    str_class(0, which, t, 0, [op1, op2, op3], 3);
+/// all observers (deref, as_ref, borrow, ==, cmp, partial_cmp, Hash) agree with the model for every constructor / content
+pub fn c14_str_read_body(ctor: u8, t: u8) {
+    kani::assume(ctor < 8 && t < 3);
+    let (class, which) = (ctor / 3, ctor % 3);
+    str_class(class, which, t, [0, 0, 0], 0);
+    kani::cover!(ctor == 7 && t == 2);
 }
 #[cfg(kani)]
 #[kani::proof]
-#[kani::unwind(6)]
+#[kani::unwind(5)]
+fn c14_str_read() {
+    c14_str_read_body(kani::any(), kani::any());
+}
+
+// quick: non-empty non-ASCII content, all 16 two-step sequences; thorough (`_all`): also "" and "a"
+pub fn c14_str_borrowed_body(which: u8, op1: u8, op2: u8) {
+    str_class(0, which, 2, [op1, op2, 0], 2);
+}
+#[cfg(kani)]
+#[kani::proof]
+#[kani::unwind(5)]
 fn c14_str_borrowed() {
-    c14_str_borrowed_body(kani::any(), kani::any(), kani::any(), kani::any(), kani::any());
+    c14_str_borrowed_body(kani::any(), kani::any(), kani::any());
 }
-
-pub fn c14_str_owned_body(which: u8, t: u8, cap: usize, op1: u8, op2: u8) {
-    str_class(1, which, t, cap, [op1, op2, 0], 2);
+pub fn c14_str_borrowed_3ops_body(which: u8, op1: u8, op2: u8, op3: u8) {
+    str_class(0, which, 2, [op1, op2, op3], 3);
 }
 #[cfg(kani)]
 #[kani::proof]
-#[kani::unwind(6)]
+#[kani::unwind(5)]
+fn c14_str_borrowed_3ops() {
+    c14_str_borrowed_3ops_body(kani::any(), kani::any(), kani::any(), kani::any());
+}
+
+pub fn c14_str_borrowed_all_body(which: u8, t: u8, op1: u8, op2: u8) {
+    kani::assume(t < 2);
+    str_class(0, which, t, [op1, op2, 0], 2);
+}
+#[cfg(kani)]
+#[kani::proof]
+#[kani::unwind(5)]
+fn c14_str_borrowed_all() {
+    c14_str_borrowed_all_body(kani::any(), kani::any(), kani::any(), kani::any());
+}
+
+// quick: non-empty non-ASCII content, all 16 two-step sequences; thorough (`_all`): also "" and "a"
+pub fn c14_str_owned_body(which: u8, op1: u8, op2: u8) {
+    str_class(1, which, 2, [op1, op2, 0], 2);
+}
+#[cfg(kani)]
+#[kani::proof]
+#[kani::unwind(5)]
 fn c14_str_owned() {
-    c14_str_owned_body(kani::any(), kani::any(), kani::any(), kani::any(), kani::any());
+    c14_str_owned_body(kani::any(), kani::any(), kani::any());
 }
-
-pub fn c14_str_shared_body(which: u8, t: u8, op1: u8, op2: u8) {
-    str_class(2, which, t, 0, [op1, op2, 0], 2);
+pub fn c14_str_owned_3ops_body(which: u8, op1: u8, op2: u8, op3: u8) {
+    str_class(1, which, 2, [op1, op2, op3], 3);
 }
 #[cfg(kani)]
 #[kani::proof]
-#[kani::unwind(6)]
+#[kani::unwind(5)]
+fn c14_str_owned_3ops() {
+    c14_str_owned_3ops_body(kani::any(), kani::any(), kani::any(), kani::any());
+}
+
+pub fn c14_str_owned_all_body(which: u8, t: u8, op1: u8, op2: u8) {
+    kani::assume(t < 2);
+    str_class(1, which, t, [op1, op2, 0], 2);
+}
+#[cfg(kani)]
+#[kani::proof]
+#[kani::unwind(5)]
+fn c14_str_owned_all() {
+    c14_str_owned_all_body(kani::any(), kani::any(), kani::any(), kani::any());
+}
+
+// quick: non-empty non-ASCII content, all 16 two-step sequences; thorough (`_all`): also "" and "a"
+pub fn c14_str_shared_body(which: u8, op1: u8, op2: u8) {
+    str_class(2, which, 2, [op1, op2, 0], 2);
+}
+#[cfg(kani)]
+#[kani::proof]
+#[kani::unwind(5)]
 fn c14_str_shared() {
-    c14_str_shared_body(kani::any(), kani::any(), kani::any(), kani::any());
+    c14_str_shared_body(kani::any(), kani::any(), kani::any());
+}
+pub fn c14_str_shared_3ops_body(which: u8, op1: u8, op2: u8, op3: u8) {
+    str_class(2, which, 2, [op1, op2, op3], 3);
+}
+#[cfg(kani)]
+#[kani::proof]
+#[kani::unwind(5)]
+fn c14_str_shared_3ops() {
+    c14_str_shared_3ops_body(kani::any(), kani::any(), kani::any(), kani::any());
+}
+
+pub fn c14_str_shared_all_body(which: u8, t: u8, op1: u8, op2: u8) {
+    kani::assume(t < 2);
+    str_class(2, which, t, [op1, op2, 0], 2);
+}
+#[cfg(kani)]
+#[kani::proof]
+#[kani::unwind(5)]
+fn c14_str_shared_all() {
+    c14_str_shared_all_body(kani::any(), kani::any(), kani::any(), kani::any());
 }
 
 // ------------------------------------------------------------------------------------------------ [T], T with a destructor (bounded)
 pub const MAXD: usize = 32;
 pub static mut D_NEXT: usize = 0;
+pub static mut D_DROPS: usize = 0;
 pub static mut D_DROPPED: [u8; MAXD] = [0; MAXD];
 /// element with identity: every instance (new or cloned) gets a fresh serial; Drop records it and rejects a second drop
 pub struct D {
@@ -471,6 +611,7 @@ impl Drop for D {
         unsafe {
             assert!(D_DROPPED[self.serial] == 0, "element dropped twice");
             D_DROPPED[self.serial] = 1;
+            D_DROPS += 1;
         }
     }
 }
@@ -499,6 +640,7 @@ impl Hash for D {
 fn d_reset() {
     unsafe {
         D_NEXT = 0;
+        D_DROPS = 0;
         D_DROPPED = [0; MAXD];
     }
 }
@@ -506,13 +648,7 @@ fn d_made() -> usize {
     unsafe { D_NEXT }
 }
 fn d_dropped_total() -> usize {
-    let mut n = 0;
-    let mut i = 0;
-    while i < MAXD {
-        n += unsafe { D_DROPPED[i] } as usize;
-        i += 1;
-    }
-    n
+    unsafe { D_DROPS }
 }
 
 fn check_slice(c: &Cow<'_, [D]>, len: usize) {
@@ -527,12 +663,13 @@ fn check_slice(c: &Cow<'_, [D]>, len: usize) {
     assert!(c.as_ref().len() == len);
 }
 
-fn slice_ops_inner<'a>(src: &'a [D; 3], arc: &Arc<[D]>, ctor: u8, len: usize, cap: usize, ops: [u8; 3], nops: usize) {
-    let c: Cow<'a, [D]> = match ctor {
+fn mk_slice<'a>(ctor: u8, src: &'a [D; 3], arc: &Arc<[D]>, len: usize) -> Cow<'a, [D]> {
+    match ctor {
         0 => Cow::from_borrowed(&src[..len]),
         1 => Cow::const_slice(&src[..len]),
         2 => {
-            let mut v = Vec::with_capacity(cap);
+            // len < capacity
+            let mut v = Vec::with_capacity(len + 1);
             let mut i = 0;
             while i < len {
                 v.push(D::new(10 + i as u8));
@@ -540,112 +677,134 @@ fn slice_ops_inner<'a>(src: &'a [D; 3], arc: &Arc<[D]>, ctor: u8, len: usize, ca
             }
             Cow::from_owned(v)
         }
-        3 => Cow::from(src[..len].to_vec()), // From<Vec<T>>
+        3 => Cow::from(src[..len].to_vec()), // From<Vec<T>>, capacity == len (empty => capacity 0 => borrowed-kind empty)
         4 => Cow::from_shared(arc.clone()),
-        _ => Cow::from(arc.clone()),         // From<Arc<[T]>>
-    };
-    let shared0 = ctor >= 4;
-    assert!(is_shared(c.metadata.kind()) == shared0);
-    assert!(Arc::strong_count(arc) == if shared0 { 2 } else { 1 });
-    check_slice(&c, len);
-    let mut cur = Some(c);
-    let mut other: Option<Cow<'a, [D]>> = None;
-    let mut step = 0;
-    while step < nops {
-        match ops[step] {
-            0 => {
-                if let Some(c) = &cur {
-                    let (before, made) = (Arc::strong_count(arc), d_made());
-                    let d = c.clone();
-                    check_slice(&d, len);
-                    match c.metadata.kind() {
-                        Kind::Shared => {
-                            assert!(Arc::strong_count(arc) == before + 1, "clone of a shared value takes one reference");
-                            assert!(d.ptr == c.ptr && d_made() == made);
-                        }
-                        Kind::Owned => {
-                            assert!(Arc::strong_count(arc) == before);
-                            assert!(d.ptr != c.ptr && d_made() == made + len, "deep copy: one clone per element");
-                        }
-                        Kind::Borrowed => {
-                            assert!(Arc::strong_count(arc) == before);
-                            assert!(d.ptr == c.ptr && d.metadata == c.metadata && d_made() == made);
-                        }
-                    }
-                    other = Some(d);
-                }
-            }
-            1 => {
-                if let Some(c) = &cur {
-                    check_slice(c, len);
-                    let mc: Cow<'a, [D]> = Cow::const_slice(&src[..len]);
-                    assert!(*c == mc && mc == *c);
-                    assert!(c.cmp(&mc) == Ordering::Equal);
-                    if let Some(o) = &other {
-                        assert!(c == o);
-                    }
-                }
-            }
-            2 => {
-                if let Some(c) = &cur {
-                    assert!(dig(c) == dig(&src[..len]), "Hash of the Cow is the Hash of its content");
-                }
-            }
-            3 => {
-                if let Some(c) = cur.take() {
-                    let (before, made, dropped) = (Arc::strong_count(arc), d_made(), d_dropped_total());
-                    let (k, p, cp) = (c.metadata.kind(), c.ptr.as_ptr() as *const D, c.metadata.capacity());
-                    let v: Vec<D> = c.into_owned();
-                    assert!(v.len() == len);
-                    assert!(d_dropped_total() == dropped, "into_owned drops no element (count >= 2 for shared: we hold `arc`)");
-                    match k {
-                        Kind::Owned => {
-                            assert!(v.as_ptr() == p && v.capacity() == cp && d_made() == made, "same allocation, no copy");
-                            assert!(Arc::strong_count(arc) == before);
-                        }
-                        Kind::Shared => {
-                            assert!(Arc::strong_count(arc) == before - 1, "into_owned gives the reference back");
-                            assert!(d_made() == made + len);
-                        }
-                        Kind::Borrowed => {
-                            assert!(Arc::strong_count(arc) == before);
-                            assert!(d_made() == made + len);
-                        }
-                    }
-                    cur = Some(Cow::from_owned(v));
-                }
-            }
-            4 => {
-                if let Some(c) = cur.take() {
-                    let (before, dropped) = (Arc::strong_count(arc), d_dropped_total());
-                    let k = c.metadata.kind();
-                    drop(c);
-                    match k {
-                        Kind::Owned => assert!(Arc::strong_count(arc) == before && d_dropped_total() == dropped + len),
-                        Kind::Shared => assert!(Arc::strong_count(arc) == before - 1 && d_dropped_total() == dropped),
-                        Kind::Borrowed => assert!(Arc::strong_count(arc) == before && d_dropped_total() == dropped),
-                    }
-                }
-            }
-            _ => {
-                core::mem::swap(&mut cur, &mut other);
-            }
-        }
-        if cur.is_none() {
-            cur = other.take();
-        }
-        step += 1;
+        _ => Cow::from(arc.clone()), // From<Arc<[T]>>
     }
-    if let Some(c) = &cur {
-        check_slice(c, len);
-    }
-    if let Some(c) = &other {
-        check_slice(c, len);
-    }
-    kani::cover!(cur.is_some() && other.is_some());
 }
 
-fn slice_ops(ctor: u8, len: usize, cap: usize, ops: [u8; 3], nops: usize) {
+/// one step on (cur, other): 0 clone cur into other, 1 into_owned + wrap again, 2 drop cur, 3 swap
+fn slice_step<'a>(op: u8, cur: &mut Option<Cow<'a, [D]>>, other: &mut Option<Cow<'a, [D]>>, len: usize, arc: &Arc<[D]>) {
+    match op {
+        0 => {
+            if let Some(c) = &*cur {
+                let (before, made) = (Arc::strong_count(arc), d_made());
+                let d = c.clone();
+                match c.metadata.kind() {
+                    Kind::Shared => {
+                        assert!(Arc::strong_count(arc) == before + 1, "clone of a shared value takes one reference");
+                        assert!(d.ptr == c.ptr && d.metadata == c.metadata && d_made() == made);
+                    }
+                    Kind::Owned => {
+                        assert!(Arc::strong_count(arc) == before);
+                        assert!(d.ptr != c.ptr && d_made() == made + len, "deep copy: one clone per element");
+                    }
+                    Kind::Borrowed => {
+                        assert!(Arc::strong_count(arc) == before);
+                        assert!(d.ptr == c.ptr && d.metadata == c.metadata && d_made() == made);
+                    }
+                }
+                check_slice(&d, len);
+                assert!(*c == d);
+                *other = Some(d); // a previous clone (if any) is dropped here
+            }
+        }
+        1 => {
+            if let Some(c) = cur.take() {
+                let (before, made, dropped) = (Arc::strong_count(arc), d_made(), d_dropped_total());
+                let (k, p, cp) = (c.metadata.kind(), c.ptr.as_ptr() as *const D, c.metadata.capacity());
+                let v: Vec<D> = c.into_owned();
+                assert!(v.len() == len);
+                assert!(d_dropped_total() == dropped, "into_owned drops no element (we still hold `arc`)");
+                match k {
+                    Kind::Owned => {
+                        assert!(v.as_ptr() == p && v.capacity() == cp && d_made() == made, "same allocation, no copy");
+                        assert!(Arc::strong_count(arc) == before);
+                    }
+                    Kind::Shared => {
+                        assert!(Arc::strong_count(arc) == before - 1, "into_owned gives the reference back");
+                        assert!(d_made() == made + len);
+                    }
+                    Kind::Borrowed => {
+                        assert!(Arc::strong_count(arc) == before);
+                        assert!(d_made() == made + len);
+                    }
+                }
+                *cur = Some(Cow::from_owned(v));
+            }
+        }
+        2 => {
+            if let Some(c) = cur.take() {
+                let (before, dropped) = (Arc::strong_count(arc), d_dropped_total());
+                let k = c.metadata.kind();
+                drop(c);
+                match k {
+                    Kind::Owned => assert!(Arc::strong_count(arc) == before && d_dropped_total() == dropped + len),
+                    Kind::Shared => assert!(Arc::strong_count(arc) == before - 1 && d_dropped_total() == dropped),
+                    Kind::Borrowed => assert!(Arc::strong_count(arc) == before && d_dropped_total() == dropped),
+                }
+            }
+        }
+        _ => core::mem::swap(cur, other),
+    }
+    if cur.is_none() {
+        *cur = other.take();
+    }
+    if let Some(c) = &*cur {
+        check_slice(c, len);
+    }
+}
+
+/// same continuation-passing exploration as `str_run`
+fn slice_run<'a>(depth: usize, nops: usize, ops: [u8; 3], mut cur: Option<Cow<'a, [D]>>, mut other: Option<Cow<'a, [D]>>, src: &'a [D; 3], len: usize, arc: &Arc<[D]>) {
+    if depth >= nops {
+        if let Some(c) = &cur {
+            check_slice(c, len);
+            // all observers agree with the model
+            let mc: Cow<'a, [D]> = Cow::const_slice(&src[..len]);
+            assert!(*c == mc && c.cmp(&mc) == Ordering::Equal && c.partial_cmp(&mc) == Some(Ordering::Equal));
+            assert!(dig(c) == dig(&src[..len]), "Hash of the Cow is the Hash of its content");
+        }
+        if let Some(c) = &other {
+            check_slice(c, len);
+        }
+        kani::cover!(nops == 0 || (cur.is_some() && other.is_some()));
+        kani::cover!(nops == 0 || cur.is_none());
+        drop(cur);
+        drop(other);
+        // every Cow is gone: references given back; borrowed source and Arc content untouched and not dropped
+        assert!(Arc::strong_count(arc) == 1, "every Arc reference taken is given back exactly once");
+        let mut s = 0;
+        while s < 3 + len {
+            assert!(unsafe { D_DROPPED[s] } == 0, "dropping a Cow never drops borrowed or still-shared elements");
+            s += 1;
+        }
+        // everything the Cows owned themselves (serials >= 3 + len) has been dropped exactly once
+        assert!(d_dropped_total() == d_made() - (3 + len), "every owned element is dropped exactly once");
+        return;
+    }
+    match ops[depth] {
+        0 => {
+            slice_step(0, &mut cur, &mut other, len, arc);
+            slice_run(depth + 1, nops, ops, cur, other, src, len, arc)
+        }
+        1 => {
+            slice_step(1, &mut cur, &mut other, len, arc);
+            slice_run(depth + 1, nops, ops, cur, other, src, len, arc)
+        }
+        2 => {
+            slice_step(2, &mut cur, &mut other, len, arc);
+            slice_run(depth + 1, nops, ops, cur, other, src, len, arc)
+        }
+        _ => {
+            slice_step(3, &mut cur, &mut other, len, arc);
+            slice_run(depth + 1, nops, ops, cur, other, src, len, arc)
+        }
+    }
+}
+
+/// `ctor` and `len` are literals at every call site
+fn slice_ops(ctor: u8, len: usize, ops: [u8; 3], nops: usize) {
     d_reset();
     {
         let src: [D; 3] = [D::new(10), D::new(11), D::new(12)]; // serials 0..2
@@ -658,41 +817,144 @@ fn slice_ops(ctor: u8, len: usize, cap: usize, ops: [u8; 3], nops: usize) {
             }
             Arc::from(v)
         };
-        assert!(d_dropped_total() == 0);
-        slice_ops_inner(&src, &arc, ctor, len, cap, ops, nops);
-        // every Cow is gone: references given back; borrowed source and Arc content untouched and not dropped
-        assert!(Arc::strong_count(&arc) == 1, "every Arc reference taken is given back exactly once");
-        let mut s = 0;
-        while s < 3 + len {
-            assert!(unsafe { D_DROPPED[s] } == 0, "dropping a Cow never drops borrowed or still-shared elements");
-            s += 1;
-        }
-        // everything the Cows owned themselves (serials >= 3 + len) has been dropped exactly once
-        assert!(d_dropped_total() == d_made() - (3 + len), "every owned element is dropped exactly once");
+        assert!(d_dropped_total() == 0 && Arc::strong_count(&arc) == 1);
+        let c = mk_slice(ctor, &src, &arc, len);
+        let shared0 = ctor >= 4;
+        assert!(is_shared(c.metadata.kind()) == shared0);
+        assert!(ctor > 1 || is_borrowed(c.metadata.kind()));
+        assert!(ctor != 2 || (is_owned(c.metadata.kind()) && c.metadata.capacity() > len));
+        assert!(Arc::strong_count(&arc) == if shared0 { 2 } else { 1 });
+        check_slice(&c, len);
+        slice_run(0, nops, ops, Some(c), None, &src, len, &arc);
     }
-    assert!(d_dropped_total() == d_made());
+    // the borrowed source and the Arc are gone as well: every element ever made has been dropped exactly once
+    assert!(d_dropped_total() == d_made(), "every element is dropped exactly once");
+}
+fn slice_len(ctor: u8, len: usize, ops: [u8; 3], nops: usize) {
+    match len {
+        0 => slice_ops(ctor, 0, ops, nops),
+        1 => slice_ops(ctor, 1, ops, nops),
+        _ => slice_ops(ctor, 3, ops, nops),
+    }
+}
+// construction class is fixed per harness (0 = borrowed ctors 0..1, 1 = owned ctors 2..3, 2 = shared ctors 4..5)
+fn slice_class(class: u8, which: u8, len: usize, ops: [u8; 3], nops: usize) {
+    kani::assume((len <= 1 || len == 3) && which < 2 && ops[0] < NOPS && ops[1] < NOPS && ops[2] < NOPS);
+    match (class, which) {
+        (0, 0) => slice_len(0, len, ops, nops),
+        (0, _) => slice_len(1, len, ops, nops),
+        (1, 0) => slice_len(2, len, ops, nops),
+        (1, _) => slice_len(3, len, ops, nops),
+        (_, 0) => slice_len(4, len, ops, nops),
+        (_, _) => slice_len(5, len, ops, nops),
+    }
 }
 
-pub fn c14_slice_ops2_body(ctor: u8, len: usize, cap: usize, op1: u8, op2: u8) {
-    kani::assume(ctor < 6 && len <= 3 && cap <= 4 && op1 < 6 && op2 < 6);
-    slice_ops(ctor, len, cap, [op1, op2, 0], 2);
+/// construct + read through every observer + drop, for every constructor and length (no intermediate operations)
+pub fn c14_slice_read_body(ctor: u8, len: usize) {
+    kani::assume(ctor < 6);
+    slice_class(ctor / 2, ctor % 2, len, [0, 0, 0], 0);
+    kani::cover!(ctor == 5 && len == 3);
+    kani::cover!(ctor == 3 && len == 0); // empty owned Vec: capacity 0, stored with the borrowed kind
 }
 #[cfg(kani)]
 #[kani::proof]
-#[kani::unwind(34)]
-fn c14_slice_ops2() {
-    c14_slice_ops2_body(kani::any(), kani::any(), kani::any(), kani::any(), kani::any());
+#[kani::unwind(8)]
+fn c14_slice_read() {
+    c14_slice_read_body(kani::any(), kani::any());
 }
 
-pub fn c14_slice_ops3_body(ctor: u8, len: usize, cap: usize, op1: u8, op2: u8, op3: u8) {
-    kani::assume(ctor < 6 && len <= 3 && cap <= 4 && op1 < 6 && op2 < 6 && op3 < 6);
-    slice_ops(ctor, len, cap, [op1, op2, op3], 3);
+// quick: 3 elements, all 16 two-step sequences; thorough (`_all`): also 0 and 1 element
+pub fn c14_slice_borrowed_body(which: u8, op1: u8, op2: u8) {
+    slice_class(0, which, 3, [op1, op2, 0], 2);
 }
 #[cfg(kani)]
 #[kani::proof]
-#[kani::unwind(34)]
-fn c14_slice_ops3() {
-    c14_slice_ops3_body(kani::any(), kani::any(), kani::any(), kani::any(), kani::any(), kani::any());
+#[kani::unwind(8)]
+fn c14_slice_borrowed() {
+    c14_slice_borrowed_body(kani::any(), kani::any(), kani::any());
+}
+pub fn c14_slice_borrowed_3ops_body(which: u8, op1: u8, op2: u8, op3: u8) {
+    slice_class(0, which, 3, [op1, op2, op3], 3);
+}
+#[cfg(kani)]
+#[kani::proof]
+#[kani::unwind(8)]
+fn c14_slice_borrowed_3ops() {
+    c14_slice_borrowed_3ops_body(kani::any(), kani::any(), kani::any(), kani::any());
+}
+
+pub fn c14_slice_borrowed_all_body(which: u8, len: usize, op1: u8, op2: u8) {
+    kani::assume(len < 2);
+    slice_class(0, which, len, [op1, op2, 0], 2);
+}
+#[cfg(kani)]
+#[kani::proof]
+#[kani::unwind(8)]
+fn c14_slice_borrowed_all() {
+    c14_slice_borrowed_all_body(kani::any(), kani::any(), kani::any(), kani::any());
+}
+
+// quick: 3 elements, all 16 two-step sequences; thorough (`_all`): also 0 and 1 element
+pub fn c14_slice_owned_body(which: u8, op1: u8, op2: u8) {
+    slice_class(1, which, 3, [op1, op2, 0], 2);
+}
+#[cfg(kani)]
+#[kani::proof]
+#[kani::unwind(8)]
+fn c14_slice_owned() {
+    c14_slice_owned_body(kani::any(), kani::any(), kani::any());
+}
+pub fn c14_slice_owned_3ops_body(which: u8, op1: u8, op2: u8, op3: u8) {
+    slice_class(1, which, 3, [op1, op2, op3], 3);
+}
+#[cfg(kani)]
+#[kani::proof]
+#[kani::unwind(8)]
+fn c14_slice_owned_3ops() {
+    c14_slice_owned_3ops_body(kani::any(), kani::any(), kani::any(), kani::any());
+}
+
+pub fn c14_slice_owned_all_body(which: u8, len: usize, op1: u8, op2: u8) {
+    kani::assume(len < 2);
+    slice_class(1, which, len, [op1, op2, 0], 2);
+}
+#[cfg(kani)]
+#[kani::proof]
+#[kani::unwind(8)]
+fn c14_slice_owned_all() {
+    c14_slice_owned_all_body(kani::any(), kani::any(), kani::any(), kani::any());
+}
+
+// quick: 3 elements, all 16 two-step sequences; thorough (`_all`): also 0 and 1 element
+pub fn c14_slice_shared_body(which: u8, op1: u8, op2: u8) {
+    slice_class(2, which, 3, [op1, op2, 0], 2);
+}
+#[cfg(kani)]
+#[kani::proof]
+#[kani::unwind(8)]
+fn c14_slice_shared() {
+    c14_slice_shared_body(kani::any(), kani::any(), kani::any());
+}
+pub fn c14_slice_shared_3ops_body(which: u8, op1: u8, op2: u8, op3: u8) {
+    slice_class(2, which, 3, [op1, op2, op3], 3);
+}
+#[cfg(kani)]
+#[kani::proof]
+#[kani::unwind(8)]
+fn c14_slice_shared_3ops() {
+    c14_slice_shared_3ops_body(kani::any(), kani::any(), kani::any(), kani::any());
+}
+
+pub fn c14_slice_shared_all_body(which: u8, len: usize, op1: u8, op2: u8) {
+    kani::assume(len < 2);
+    slice_class(2, which, len, [op1, op2, 0], 2);
+}
+#[cfg(kani)]
+#[kani::proof]
+#[kani::unwind(8)]
+fn c14_slice_shared_all() {
+    c14_slice_shared_all_body(kani::any(), kani::any(), kani::any(), kani::any());
 }
 
 // Send / Sync: the `unsafe impl`s are bounded by T: Send / T: Sync; this only pins down that the two instantiations the
@@ -702,3 +964,4 @@ fn _static_send_sync() {
     _assert_send_sync::<Cow<'static, str>>();
     _assert_send_sync::<Cow<'static, [crate::Label]>>();
 }
+
